@@ -215,3 +215,18 @@ Proof.
   - split; [reflexivity|intros _; exact E].
 Qed.
 End Checkers.
+
+(** ** 4. Example: the hypotheses are satisfiable and the cache non-empty:
+    white K e1, black R e8 (checking along the open e-file), black N c2 (checking), black K a8 *)
+Definition chk_pcs : list (option (ptype*color)) :=
+  updN (updN (updN (updN (repeat None 64) 4 (Some (King,White))) 60 (Some (Rook,Black)))
+             10 (Some (Knight,Black))) 56 (Some (King,Black)).
+Example checkers_canon_ex :
+  Consistent (place_all chk_pcs) /\
+  popcnt (N.land (pK (place_all chk_pcs)) (color_combined (place_all chk_pcs) (stm (place_all chk_pcs)))) = 1 /\
+  kings_apart (place_all chk_pcs) /\
+  checkers (update_pin_info (place_all chk_pcs)) = N.lor (bit 10) (bit 60) /\
+  checkers_of (abs_board (place_all chk_pcs)) = [10;60].
+Proof.
+  split; [apply place_all_consistent|]. repeat split; vm_compute; reflexivity.
+Qed.
